@@ -115,4 +115,25 @@ theorem connErr_unwrap_never_nil (cause : Val) (msg : String) :
   rw [connErr_unwrap_translated]
   by_cases h : cause = .nil <;> simp [h]
 
+/-! ### ErrClient -/
+
+/-- Extern of `ErrClient.Error`: `fmt.Sprintf("RPC client error: %s", err)` with exactly this format string prints the cause's
+    message after the prefix (any other format string is outside the stated semantics: the run is stuck). -/
+def errClientExt (msg : String) : Ext
+  | "fmt.Sprintf", [.str "RPC client error: %s", _], env => .ok (.str ("RPC client error: " ++ msg)) env
+  | fn, _, _ => .stuck fn
+
+/-- `ErrClient.Unwrap()` is the stored cause itself, for every cause: `errors.Is / As` see through the wrapper. -/
+theorem errClient_unwrap_translated (cause : Val) (ext : Ext) :
+    (run ext prog_ErrClient_Unwrap [("e.err", cause)]).val? = some cause := by
+  unfold prog_ErrClient_Unwrap
+  mgsimp
+
+/-- `ErrClient.Error()` is the fixed prefix followed by the cause's text. -/
+theorem errClient_error_translated (cause : Val) (msg : String) :
+    (run (errClientExt msg) prog_ErrClient_Error [("e.err", cause)]).val? =
+      some (.str ("RPC client error: " ++ msg)) := by
+  unfold prog_ErrClient_Error
+  mgsimp [errClientExt]
+
 end Jrpc.Trans
